@@ -126,7 +126,7 @@ PROPERTIES = {
         "assumptions": ["R7 write! translation, R3 chars().enumerate() as an index loop over the materialised characters"],
     },
     "C13": {
-        "units": ["c13_bar", "format_state"],
+        "units": ["c13_bar", "c13_format_bar", "format_state"],
         "kani_thorough": [
             {"harness": "c13_format_bar_geometry", "timeout": 2400, "complete": True,
              "obligation": "kani/style::ProgressStyle::format_bar",
@@ -142,7 +142,7 @@ PROPERTIES = {
              "trusted": ["Kani/CBMC float model", "Instant::now and RandomState::new stubbed"]},
         ],
         "level": "proof",
-        "explanation": "BarDisplay::fmt and RepeatedStringDisplay::fmt extracted and verified by Verus: the bar text is filled cells, then at most one partial cell (one of the configured progress characters), then background cells, in that order; cell-budget and wide_bar width arithmetic as lemmas. format_bar (f32 arithmetic) is decided on the unmodified function by loop-free Kani harnesses over the full stated domains (thorough tier).",
+        "explanation": "BarDisplay::fmt and RepeatedStringDisplay::fmt extracted and verified by Verus: the bar text is filled cells, then at most one partial cell (one of the configured progress characters), then background cells, in that order; cell-budget and wide_bar width arithmetic as lemmas. format_bar itself is verified by Verus over the reals (cells = floor(width / char_width), filled = floor(fraction * cells), partial cell iff neither empty nor full and always a configured progress character, background fills the rest; monotone in the fraction) and, for its f32 arithmetic, decided on the unmodified function by loop-free Kani harnesses over the full stated domains (thorough tier).",
         "level_text": "Deductive proof (Verus) of the cell order and the integer arithmetic for all inputs; bit-precise proof (Kani/CBMC) of floor(fraction*cells), the partial-cell condition, index validity, full-iff-complete up to 2^24 and monotonicity over all inputs of the stated domains.",
         "level_note": "Assumed: console::StyledObject printing, core::fmt sink. The quick tier runs the Verus unit only; the three Kani harnesses take 5 to 60 minutes and run in the thorough tier (a timeout there is reported as undecided). That WideElement::expand hands format_bar the remaining width is decided in C11's unit (format_state).",
         "assumptions": ["cell widths 1..2 and 2..5 progress characters in the Kani fixture", "IEEE-754 semantics as implemented by CBMC"],
@@ -199,10 +199,16 @@ WITNESS = {
     "c15_formatters/HumanCount::fmt": ["human_count"],
     "c15_formatters/FormattedDuration::fmt": ["formatted_duration"],
     "c17_adaptors/ProgressBarIter::poll_fill_buf": ["async_fill_buf"],
+    "c17_adaptors/ProgressBarIter::seek": ["iter_adaptors"],
+    "c17_adaptors/ProgressBarIter::next": ["iter_adaptors"],
+    "c17_adaptors/ProgressBarIter::read": ["iter_adaptors"],
+    "c17_adaptors/ProgressBarIter::write": ["iter_adaptors"],
+    "c17_adaptors/ProgressBarIter::consume": ["iter_adaptors"],
     "c17_adaptors/ProgressBarIter::async_consume": ["async_fill_buf"],
     "c17_adaptors/ProgressBarIter::poll_complete": ["async_seek"],
     "c09_estimator/Estimator::steps_per_second__F_": ["est_decay"],
     "c09_estimator/": ["est_laws"],
+    "c13_format_bar/": ["bar_cells"],
     "format_state/ProgressStyle::push_line": ["render_lines"],
     "format_state/WideElement::expand": ["render_wide"],
     "format_state/ProgressStyle::": ["render_keys", "render_lines", "render_wide"],
@@ -241,6 +247,8 @@ FALLBACK = {
                     ("multi_finish", ["C04", "C02"], "finished bars of a MultiProgress stay, in order, for every finish and drop order of three bars"),
                     ("io_fail_multi", ["C18"], "MultiProgress calls under a failing terminal")],
     "c07_position": [("bar_hidden", ["C06", "C07"], "getters after operation histories, hidden vs visible")],
+    "c17_adaptors": [("iter_adaptors", ["C17"], "external / reverse / internal iteration (8 modes x 3 lengths, second handle on the bar), Read with 5 chunk scripts x 3 buffer sizes incl. errors, read_exact, read_to_string, interleaved fill_buf / consume, 9 seeks x 2 bar offsets, Write / write_vectored with 4 chunk scripts")],
+    "c13_format_bar": [("bar_cells", ["C13"], "{bar:N} geometry for 6 widths x 9 lengths (up to 2^24) x 8 positions on the real f32 code")],
     "c09_estimator": [("est_laws", ["C09"], "finite / non-negative / bounded / steady-exact / reset-forgets on the real f64 estimator: 5 rates x 6 gap patterns x 40 samples")],
     "c14_style": [("style_build", ["C14"], "builders reject or produce a renderable style (family of tick/progress strings)")],
     "c10_template": [("template_total", ["C10"], "parser totality on generated strings up to length 6 over the grammar alphabet"),
